@@ -176,6 +176,23 @@ def check_stream_law(ctx, data, sc, bs, scratch):
         o2 = io.BytesIO()
         rev = s_obj.reverse()
         FastaStream(o2, fi).write_scaffold(rev)
+        # the chunk iterator a row is streamed from, used the other ways an iterator may be used: all chunks
+        # fetched before any is read, and two iterators advanced in step (two outputs written side by side)
+        held_bad = None
+        for r in [x for x in rev.rows if hasattr(x, "strand")][:4]:
+            want_r = recs[r.name]["seq"][r.start - 1 : r.end]
+            if r.strand == -1:
+                want_r = fasta_ref.revcomp(want_r)
+            held = list(fi.get_sequence_iter(r))
+            got_held = b"".join(c.getvalue() for c in held)
+            pair = [(c1.getvalue(), c2.getvalue()) for c1, c2 in zip(fi.get_sequence_iter(r), fi.get_sequence_iter(r))]
+            ctx.count("streamlaw:chunks-held-and-zipped" + (":several-chunks" if len(held) > 1 else ""))
+            if got_held != want_r:
+                held_bad = ("chunks-held-before-reading-differ", r, got_held, want_r)
+            elif b"".join(a for a, _ in pair) != want_r or b"".join(b for _, b in pair) != want_r:
+                held_bad = ("two-iterators-in-step-differ", r, b"".join(a for a, _ in pair), want_r)
+            if held_bad:
+                break
     finally:
         fh = fi.__dict__.get("fasta_fileandle")
         if fh:
@@ -184,6 +201,10 @@ def check_stream_law(ctx, data, sc, bs, scratch):
     body2 = b"".join(o2.getvalue().split(b"\n")[1:])
     known = all(r[0] == "G" or r[4] != 0 for r in sc[1])
     ctx.nontrivial([case["data"], sc, bs])
+    if held_bad:
+        sig, r, g_, w_ = held_bad
+        ctx.violation(f"row-sequence:{sig}", f"row {r} buffer={bs}\n got {g_[:120]!r}\nwant {w_[:120]!r}", case)
+        return
     if known:
         ctx.count("streamlaw:known-strands")
         if body2 != fasta_ref.revcomp(body1):
@@ -256,6 +277,7 @@ def gates(c, tier):
         "random-bytes": 1000,
         "streamlaw:known-strands": 1500,
         "streamlaw:with-unknown-strand": 200,
+        "streamlaw:chunks-held-and-zipped:several-chunks": 500,
         "direct:reverse-calls": 2000,
         "insitu:reverse-calls": 200,
         "insitu:to_scaffold-calls:bait-strand=0": 20,
